@@ -1,5 +1,5 @@
 SPECIFICATION Spec
-CONSTANTS NX = 4  NY = 3  NZ = 3  Variant = "mirror_src_swapped"  HaloMode = "few"  NumFields = 1  NumWidths = 1  Parts = 2
+CONSTANTS NX = 4  NY = 3  NZ = 3  Variant = "mirror_src_swapped"  HaloMode = "neg"  NumFields = 1  NumWidths = 1  DetMode = "unit"  Parts = 2
 INVARIANT TypeOK
 INVARIANT RecordIsFormula
 INVARIANT PathsAgree
